@@ -140,6 +140,22 @@ Theorem C10_always_replies : forall nets premask fm8 fmM gl,
 Proof. exact always_replies. Qed.
 Print Assumptions C10_always_replies.
 
+(* connection to C03: a driver for which C03's theorem holds in the shape of
+   Proofs/Location.v cdb_is_lpm (the result of GetLocationByMap on the IPNet
+   (a, bits, ones) is the longest-prefix match of the network address
+   clean_mask a plen at plen = ones resp. 96 + ones) satisfies the hypothesis of
+   C10_scope_truthful, C10_fallback_to_resolver and C10_always_replies with
+   premask = true.  [c03_client_plen] and [c03_lpm_result] are literal copies of
+   client_plen and lpm_result there. *)
+Theorem C10_c03_shape_suffices : forall (nets : mapid -> list subnet) (gl : mapid -> client -> result (option bytes * N)),
+  (forall m a bits ones plen, a < two128 -> c03_client_plen a bits ones plen ->
+     gl m (mkClient (Some a) bits ones) =
+     Ok (c03_lpm_result (lpm (nets m) (fam (clean_mask a plen)) (clean_mask a plen) plen))) ->
+  forall m c, wf_client c -> exists r, gl m c = Ok r /\
+    hit_of r = lpm (nets m) (cfam c) (search_addr true c) (eff_plen c).
+Proof. exact c03_shape_suffices. Qed.
+Print Assumptions C10_c03_shape_suffices.
+
 (* options that miekg/dns unpacks are well-formed *)
 Theorem C10_unpacked_ecs_wf : forall f s sc ab e, wf_bytes ab -> unpack_ecs f s sc ab = Some e -> wf_ecs e.
 Proof. exact unpack_ecs_wf. Qed.
